@@ -14,7 +14,7 @@ Not decided: completeness, group ordering, liveness ordering (properties of iter
 """
 from ..inline import inline_view
 from ..mir import AnchorLost
-from ..util import closure_family, df_of, fn_short, in_set, backward_slice, operand_path, path_last, switch_on, switch_edges, field_writers
+from ..util import truth_edges, closure_family, df_of, fn_short, in_set, backward_slice, operand_path, path_last, switch_on, switch_edges, field_writers
 from ..callgraph import CallGraph
 from .c20 import slice_fields
 
@@ -68,9 +68,7 @@ def r1(ctx, facts):
                 isn.append(c)
         cut = []
         for g in gates + isn:
-            for sw in switch_on(b, df, ("call", g.bb)):
-                edges, other = switch_edges(b, sw)
-                ttg = other if 0 in edges else edges.get(1)
+            for sw, ttg, _ff in truth_edges(b, df, ("call", g.bb)):
                 cut.append((sw, ttg))
         if not gates:
             raise AnchorLost("DefaultPolicy::%s: is_datacenter_failover_possible is never consulted" % meth)
